@@ -7,33 +7,24 @@ From DV Require Import Base.MachInt Base.Sched Model.EventModel Proofs.C21Proofs
 Import ListNotations.
 Local Open Scope Z_scope.
 
-(* The full statement one would like: for every program over the public operations, every schedule: no reachable
-   state has a waiter asleep in the futex while the word holds the value it waits for and nobody is about to wake. *)
-Definition C21_full_statement : Prop :=
-  forall tgt w0 tm progs s, in32 w0 ->
-    Forall (Forall (fun o => match o with OCountDown _ => tgt = 0 | ONotify v => in32 v | OWait v | OWaitFor v _ => v = tgt
-                                      | OArrive => tgt = 0 | OReset => tgt <> 0 | _ => True end)) progs ->
-    reach step (init w0 tm progs) s ->
-    (forall th, In th (threads s) -> ~ is_pending th) ->
-    forall th, In th (threads s) -> is_blocked th -> word s <> tgt.
-
-(* It is FALSE of the code as written: Latch::count_down(n) notifies only when the previous value is exactly 1. *)
-Theorem C21_refuted :
-  exists s, reach step (init 3 false [[OWait 0]; [OCountDown 3]]) s /\ word s = 0 /\
-            (forall th, In th (threads s) -> ~ is_pending th) /\
-            (exists th, In th (threads s) /\ tpc th = PBlocked 0 0).
-Proof. exact refuted_reach. Qed.
-Print Assumptions C21_refuted.
-
-(* It HOLDS on the complement of that finding's domain: all programs whose count_down calls use n = 1
-   (wf_op: CompletionEvent programs with tgt = 1, Latch programs with tgt = 0), any number of threads, all schedules,
-   with or without timed waits timing out. *)
-Theorem C21_holds_except : forall tgt w0 tm progs s,
+(* Full statement: for every program over the public operations (CompletionEvent programs with target 1, Latch programs with
+   target 0; count_down with ANY n), any number of threads, every schedule, with or without timed waits timing out:
+   no reachable state has a waiter asleep in the futex while the word holds the value it waits for and nobody is about to wake.
+   (Before the repair "fix: Latch::count_down(n) ..." in /repo this was refuted by Latch l(3); wait(); count_down(3) --
+   see known_findings.json, entry fixed: property=C21.) *)
+Theorem C21_no_lost_wakeup : forall tgt w0 tm progs s,
   in32 w0 -> Forall (Forall (wf_op tgt)) progs -> reach step (init w0 tm progs) s ->
   (forall th, In th (threads s) -> ~ is_pending th) ->
   forall th, In th (threads s) -> is_blocked th -> word s <> tgt.
 Proof. exact quiescent_not_lost. Qed.
-Print Assumptions C21_holds_except.
+Print Assumptions C21_no_lost_wakeup.
+
+(* the former refutation witness now completes *)
+Theorem C21_former_witness_completes :
+  let '(s, tr, st) := run_event 20 3 false [[OWait 0]; [OCountDown 3]] [0; 0; 0; 1; 1; 0; 0; 0; 0; 0; 0; 0; 0; 0; 0] in
+  st = SDone /\ word s = 0.
+Proof. exact former_witness_completes. Qed.
+Print Assumptions C21_former_witness_completes.
 
 (* stronger, state by state: a sleeping waiter + completed word implies a committed wake-all *)
 Theorem C21_wake_pending_invariant : forall tgt w0 tm progs s,
@@ -64,8 +55,8 @@ Print Assumptions C21_run_reach.
 
 (* non-vacuity: a 3-thread latch program in the domain whose run ends with every waiter released *)
 Example C21_nonvacuous :
-  Forall (Forall (wf_op 0)) [[OWait 0]; [OCountDown 1; OCountDown 1]; [OArrive]] /\
-  snd (run_event 60 3 false [[OWait 0]; [OCountDown 1; OCountDown 1]; [OArrive]]
+  Forall (Forall (wf_op 0)) [[OWait 0]; [OCountDown 2]; [OArrive]] /\
+  snd (run_event 60 3 false [[OWait 0]; [OCountDown 2]; [OArrive]]
          [0;0;0;1;1;1;2;2;0;0;0;0;0;0;0;0;0;0;0;0;0;0;0;0;0;0;0;0;0;0]) = SDone.
 Proof.
   split; [|vm_compute; reflexivity].
